@@ -2882,6 +2882,15 @@ class LazyStackedTensorDict(TensorDictBase):
         stack_dim = len(shape) + self.stack_dim - self.ndimension()
         new_shape_tensordicts = [v for i, v in enumerate(shape) if i != stack_dim]
         tensordicts = [td.expand(new_shape_tensordicts) for td in self.tensordicts]
+        if shape[stack_dim] not in (-1, len(tensordicts)):
+            # the stack dim itself is expanded: only a singleton can be
+            if len(tensordicts) != 1:
+                raise RuntimeError(
+                    f"The expanded size of the tensordict ({shape[stack_dim]}) must match "
+                    f"the existing size ({len(tensordicts)}) at non-singleton stack "
+                    f"dimension {stack_dim}. Target sizes: {list(shape)}."
+                )
+            tensordicts = tensordicts * shape[stack_dim]
         if inplace:
             self.tensordicts = tensordicts
             self.stack_dim = stack_dim
